@@ -457,7 +457,7 @@ impl Gen {
                     // a fresh table of a giant element type (c = 9): a = amount, b = which type
                     op.c = 9;
                     op.a = rng.below(64) as i64;
-                    op.b = rng.below(6) as i64;
+                    op.b = rng.below(8) as i64;
                     op.r = Refuse::All;
                 }
                 op
